@@ -54,6 +54,8 @@ def strip_field_from_value(v, cname_set, fname):
         return ["m", [[k, strip_field_from_value(x, cname_set, fname)] for k, x in v[1]]]
     if v[0] == "nt":
         return ["nt", v[1], [strip_field_from_value(x, cname_set, fname) for x in v[2]]]
+    if v[0] == "ao":
+        return v
     return v
 
 
@@ -239,6 +241,13 @@ def spec_edits(case):
                 t = f["t"]
                 if t[0] in ("opt", "list", "dict") and "d" not in f:
                     pass
+    if spec.get("aux") and not mentions([spec["chunks"], case["ops"]], "acls") \
+            and not mentions(case["ops"], "ao"):
+        s2 = F.clone(spec)
+        s2.pop("aux")
+        new = dict(case)
+        new["spec"] = s2
+        yield "drop aux module", new
     if spec.get("pep563"):
         s2 = F.clone(spec)
         s2["pep563"] = False
